@@ -162,10 +162,26 @@ def check_invariant(ctx, c, dtypes, hist, kind):
     return True
 
 
+import enum as _enum
+
+
+class Flag(str, _enum.Enum):
+    A = 'ab'
+
+
+# scalar operands that are NumPy scalars or subclasses of a Python type -> the plain Python value they stand for
+PLAIN_EQUIVALENT = {'np.str_': lambda: 'ab', 'np.str_-number': lambda: '2.5', 'np.float64': lambda: 1.5, 'np.int64': lambda: 3, 'np.bool_': lambda: True}      # (Enum members are left out: NumPy itself stores str(member), not the member's value)
+
+
+class Three(_enum.IntEnum):
+    THREE = 3
+
+
 def operands(n):
     """Representative operand catalogue: (tag, factory)."""
     return [
         ('int', lambda: 3), ('float', lambda: 2.5), ('bool', lambda: True), ('str', lambda: 'ab'), ('np.float64', lambda: np.float64(1.5)),
+        ('np.str_', lambda: np.str_('ab')), ('np.str_-number', lambda: np.str_('2.5')), ('np.int64', lambda: np.int64(3)), ('np.bool_', lambda: np.bool_(True)),
         ('list-n', lambda: [0.5 * i for i in range(n)]), ('list-int-n', lambda: list(range(n))), ('list-n+1', lambda: [1.0] * (n + 1)),
         ('list-1', lambda: [4.0]), ('list-0', lambda: []), ('tuple-n', lambda: tuple([True] * n)), ('range-n', lambda: range(n)),
         ('range-n-1', lambda: range(max(n - 1, 0))), ('list-str-n', lambda: ['s'] * n),
@@ -307,6 +323,13 @@ def step(ctx, c, twin, dtypes, hist, kind, n, span, op, optag, opval_factory, ta
             return o.__dict__['_' + others[0]]
         return _factory()
     operand = opval_factory()
+    plain_twin = None
+    if optag in PLAIN_EQUIVALENT and op in ('attr', 'item', 'replace', 'label', 'lslice', 'add'):
+        # a NumPy / subclass spelling of a scalar is that scalar: the same operation with the plain Python value on a copy taken now
+        try:
+            plain_twin = c.copy()
+        except Exception:
+            plain_twin = None
     try:
         apply(c, op, optag, operand, target, n, span, extra)
         if op == 'add':
@@ -366,6 +389,16 @@ def step(ctx, c, twin, dtypes, hist, kind, n, span, op, optag, opval_factory, ta
     ctx.seen('op_outcomes', f'{op}:{outcome}')
     case = {'kind': kind, 'n': n, 'history': hist}
     after = snap(c)
+    if plain_twin is not None:
+        p_out = 'ok'
+        try:
+            apply(plain_twin, op, optag, PLAIN_EQUIVALENT[optag](), target, n, span, extra)
+        except Exception as e:
+            p_out = type(e).__name__
+        ctx.count('scalar_spellings_compared')
+        if p_out != outcome or not series_same(after, snap(plain_twin)):
+            ctx.violation('series-shape', f'{kind}: {desc} -> {outcome}; the same operation with the plain Python value {PLAIN_EQUIVALENT[optag]()!r} -> {p_out}; series equal: {series_same(after, snap(plain_twin))}', case)
+            return False
     if op == 'lslice' and target in before['index'] and isinstance(operand, (list, tuple, range, np.ndarray)) and np.ndim(operand) == 1 and len(operand) >= 2:
         # a label slice addresses the periods from its first to its last label inclusive (open ends: the span's ends) - falsy labels
         # such as 0 included; a sequence of another length cannot fit it
